@@ -72,7 +72,8 @@ where
         if idx >= self.len() {
             ret = None;
         } else {
-            let mut limit = idx + len;
+            // `len` may well be "everything" (u64::MAX)
+            let mut limit = idx.saturating_add(len);
 
             ret = Some(limit);
 
